@@ -9,7 +9,7 @@ import vlib, gen_nb
 from vlib import enc, dec, canon, plain
 from checks import mergelib
 
-THEOREMS = ['Nbdime.C07_builtin_provenance', 'Nbdime.C07_builtin_survival']
+THEOREMS = ['Nbdime.C07_builtin_provenance', 'Nbdime.C07_builtin_survival', 'Nbdime.C07_model_cells_survival']
 MARK = re.compile(r'^(<{7}|={7}|>{7}|\|{7})( .*)?$')
 SPAN = re.compile(r'^<span style="color:red"><b>(<{7}|={7}|>{7}).*</b></span>$')
 
